@@ -15,7 +15,7 @@ from . import k10
 
 # (function regex, kind, callee regex, operand regex, reason)  — reviewed by reading; W1..W5 = DESIGN.md section 3
 TABLE = [
-    (r"TypeParameters::unused_params_phantom_data", "unwrap", r"Option::expect", r"Iterator::next\(mut\[Iterator::filter\(P0\.params,\|1\|\{BTreeSet::contains\(P0\.unused,C1_0\)\}\);.*",
+    (r"TypeParameters::unused_params_phantom_data", "unwrap", r"Option::expect", r"Iterator::next\((mut\[)?Iterator::filter\(P0\.params,\|1\|\{BTreeSet::contains\(P0\.unused,C1_0\)\}\).*",
      "class invariant unused ⊆ params (unused is built from params and only shrinks, C02.4/params/mark-used): with |unused| = 1 the membership filter over params yields exactly one element"),
     (r"ModuleIR::get_or_insert_submodule", "may-panic-call", r"Ident::new", r".*",
      "W3: namespace segments of struct/enum paths are Rust identifiers, so Ident::new accepts them"),
